@@ -35,6 +35,24 @@ Offs(pos, d) == CASE pos = "start"  -> {0}
                   [] pos = "end"    -> {d}
                   [] pos = "center" -> {d \div 2, CeilDiv(d, 2)}
 
+(* ------------------------------------------------ Req: chains of operations *)
+(* A history: two operations applied one after the other to the same data.  Everything stays on the ORIGINAL lattice: *)
+(* a state is the axis lo..hi (lattice indices) and the set K of original samples still present (index j carries the  *)
+(* datum j+1 iff j \in K, anything else is fill).  Operations are uniform records                                      *)
+(*   [op |-> "extend" | "crop" | "width", ms, me, lc, rc, w, pos]   (intervals in quarter steps of the original axis). *)
+(* Nothing but the axis and the data is carried from one operation to the next.                                       *)
+St(lo, hi, K) == [lo |-> lo, hi |-> hi, K |-> K]
+ApplyOp(st, s, o) ==
+    CASE o.op = "extend" -> {St(Min(w[1], st.lo), Max(w[2], st.hi), st.K) : w \in Extents(s, o.ms, o.me, o.lc, o.rc)}
+      [] o.op = "crop"   -> LET X == {j \in st.lo..st.hi : InIv(4 * j, o.ms, o.me, o.lc, o.rc)}
+                            IN  IF X = {} THEN {St(st.lo, st.lo - 1, {})} ELSE {St(SetMin(X), SetMax(X), st.K \cap X)}
+      [] o.op = "width"  -> LET L == st.hi - st.lo + 1 IN
+                            IF o.w >= L
+                            THEN {St(st.lo - off, st.lo - off + o.w - 1, st.K) : off \in Offs(o.pos, o.w - L)}
+                            ELSE {St(st.lo + off, st.lo + off + o.w - 1, st.K \cap ((st.lo + off)..(st.lo + off + o.w - 1))) :
+                                    off \in Offs(o.pos, L - o.w)}
+Final(c) == UNION {ApplyOp(st, c.s, c.ops[2]) : st \in ApplyOp(St(0, c.n - 1, 0..(c.n - 1)), c.s, c.ops[1])}
+
 (***************************************************************************)
 (* Acceptance of one observation.  out = [raised, cin, cout (coordinates    *)
 (* before / after as bit patterns), lout (after, limbs), data (after;       *)
@@ -87,6 +105,20 @@ HoldsWidth(cl, c, r) ==
             ELSE L <= c.n /\ \E off \in Offs(c.pos, c.n - L) : \A t \in 1..L : r.data[t] = off + t
       [] OTHER -> TRUE
 
+\* chains: the final result is judged by the same clauses against the original lattice
+HoldsChain(cl, c, r) ==
+    LET L == Len(r.data)
+        F == {st \in Final(c) : L = st.hi - st.lo + 1} IN
+    CASE cl = "ExtendLatticePoints" ->
+              /\ F # {} /\ Len(r.lout) = L
+              /\ \E st \in F : \A t \in 1..L : OnLattice(r.lout[t], c.a4, c.s, st.lo + t - 1)
+      [] cl = "ExtendOldKept" ->
+              F = {} \/ \E st \in F : \A j \in st.K : r.data[j - st.lo + 1] = j + 1
+      [] cl = "ExtendNewFill" ->        \* (what adjust_dim_width puts into the samples it adds is not in the statement)
+              F = {} \/ c.ops[2].op = "width" \/ \E st \in F : \A t \in 1..L : (st.lo + t - 1) \notin st.K => r.data[t] = c.fill
+      [] cl = "ExactlyWidth" -> c.ops[2].op = "width" => L = c.ops[2].w
+      [] OTHER -> TRUE
+
 Holds17(cl, o) ==
     LET c == o.in  r == o.out IN
     CASE cl = "Returns"    -> r.raised = ""
@@ -95,4 +127,5 @@ Holds17(cl, o) ==
                     CASE c.kind = "crop"   -> HoldsCrop(cl, c, r)
                       [] c.kind = "extend" -> HoldsExtend(cl, c, r)
                       [] c.kind = "width"  -> HoldsWidth(cl, c, r)
+                      [] c.kind = "chain"  -> HoldsChain(cl, c, r)
 =============================================================================
